@@ -6,7 +6,7 @@ from ..core import hexs, unhexs
 PIECES = ["${", "}", "\\", "$", "(", ")", "$(", "$$(", "a", "B", " ", "é", "日", "x1", "+", "1", "2",
           "*", "<", "${A}", "${B}", "${C}", "${N}", "${a b}", "${é}", "\\${A}", "\\${", "$(1+2)",
           "$(${N}+1)", "$(2*$(1+1))", "${nosuch}", "{", "\\\\", "$$", "-O2", "\"s\"", "$(\"a\"+\"b\")",
-          "$(1 <", "$(1/0)", "$(true && false)", "%", "${A}${B}", "é${A}", "${A}é", "\\é", "$é", "é("]
+          "$(1 <", "$(1/0)", "$(true && false)", "%", "$(n = 2; n * 3)", "$(a = ${N}; if(a > 1, a, 9))", "$(x = 1)", ";", "=", "${A}${B}", "é${A}", "${A}é", "\\é", "$é", "é("]
 VARS = ["A", "B", "C", "N", "a b", "é", "in", "out"]
 
 def rstr(rng, n=None, pieces=PIECES):
@@ -65,7 +65,7 @@ def gen(rng, tier):
         directed.append(("expand_eval", "E", "${V0}", chain))
     for cmd, pol, f, m in directed:
         cases.append((req_expand(cmd, pol, f, m), "directed"))
-    for s in ["$(1+2)", "é$(1+2)", "$é(1)", "$$(1+2)", "a $(1+$(1+1)) b", "$(", "$(1", "())$(1+1)", "$(1+1))(", "日$(2*3)日", "$($(1+1)", "x$$(y$(1+1)"]:
+    for s in ["$(1+2)", "é$(1+2)", "$é(1)", "$$(1+2)", "a $(1+$(1+1)) b", "$(", "$(1", "())$(1+1)", "$(1+1))(", "日$(2*3)日", "$($(1+1)", "x$$(y$(1+1)", "$(n = 4 * 2; if(n > 6, 6, n))", "a$(v = 1; v + v)b$(v)", "$(max(1, 2))", "$(len(\"abc\"))", "$(str::to_uppercase(\"x\"))"]:
         cases.append(("eval " + hexs(s), "directed"))
     return cases
 
